@@ -779,6 +779,7 @@ func (obj *DenseReal32MatrixJointIterator) Ok() bool {
          !(obj.s2 == nil || obj.s2.GetFloat32() == float32(0))
 }
 func (obj *DenseReal32MatrixJointIterator) Next() {
+next:
   ok1 := obj.it1.Ok()
   ok2 := obj.it2.Ok()
   obj.s1 = nil
@@ -798,6 +799,8 @@ func (obj *DenseReal32MatrixJointIterator) Next() {
       obj.s2 = obj.it2.GetConst()
     }
   }
+  // true if at least one iterator is advanced below
+  advanced := obj.s1 != nil || obj.s2 != nil
   if obj.s1 != nil {
     obj.it1.Next()
   }
@@ -805,6 +808,11 @@ func (obj *DenseReal32MatrixJointIterator) Next() {
     obj.it2.Next()
   } else {
     obj.s2 = ConstFloat32(0.0)
+  }
+  // skip positions where all elements are zero, stop only when
+  // all iterators are exhausted
+  if !obj.Ok() && advanced {
+    goto next
   }
 }
 func (obj *DenseReal32MatrixJointIterator) Get() (Scalar, ConstScalar) {
